@@ -193,11 +193,11 @@ Proof. intros. apply parse_end_header_terminates. assumption. Qed.
 Print Assumptions C10_7z_end_header_terminates.
 
 (* ---------------------------------------------------------------- parse-after-serialise round trips (C10/Ser.v = the
-   harness's 7z writer as Coq functions; C10/RoundTrip.v).  Proved so far: the number codec in full, the primitive
-   readers, and the whole MainStreamsInfo section (PackInfo, UnpackInfo with coder flags/properties, SubStreamsInfo with
-   the per-folder size bookkeeping) down to the reader state the member theorems start from.  NOT yet proved: the
-   FilesInfo property loop and the composition through _parse_main_header/_parse_end_header/_parse_header, hence no
-   `C10_7z_members_exact_from_bytes` yet (the end-to-end tie from archive bytes remains the differential run). *)
+   harness's 7z writer as Coq functions, tied to the Python writer by a differential run; C10/RoundTrip.v).
+   The number codec, every header section, the whole plain header and the 32-byte start header round-trip, so the member
+   theorem composes end to end FROM THE ARCHIVE BYTES (C10_7z_members_exact_from_bytes).  Restrictions, all boolean
+   hypotheses: single-coder folders (no bind pairs), attributes in the implementation's dialect (no External byte) or
+   absent, plain (not encoded) header. *)
 From S2T Require Import C10.Ser C10.RoundTrip.
 
 (* _read_number inverts the writer's num() for every 7z number (n < 2^64, all nine byte-length classes) *)
@@ -210,11 +210,12 @@ Example C10_7z_number_ok_satisfiable : num_ok 18446744073709551615 = true /\ num
 Proof. split; reflexivity. Qed.
 Print Assumptions C10_7z_number_ok_satisfiable.
 
-(* UTF-16LE names and packed bit vectors *)
+(* UTF-16LE names (surrogate pairs for code points above the BMP, joined again by the reader) and packed bit vectors *)
 Theorem C10_7z_name_roundtrip :
   forall (name : str) (rest : bytes) (fuel : nat),
-    wf_name name = true -> (List.length (utf16 name ++ rest) < fuel)%nat -> r_name fuel (utf16 name ++ rest) = POk name rest.
-Proof. intros. apply r_name_utf16; assumption. Qed.
+    wf_name name = true -> (List.length (utf16 name ++ rest) < fuel)%nat ->
+    exists units, r_name fuel (utf16 name ++ rest) = POk units rest /\ join_pairs units = name.
+Proof. intros. eexists. split; [apply r_name_utf16; assumption | apply join_pairs_units; assumption]. Qed.
 Print Assumptions C10_7z_name_roundtrip.
 
 Theorem C10_7z_bitvector_roundtrip :
@@ -254,3 +255,52 @@ Example C10_7z_wf_header_satisfiable :
   wf_header (pack7z true 16 32 0 L2) (Some (repeat 0 8)) None true = true.
 Proof. vm_compute. reflexivity. Qed.
 Print Assumptions C10_7z_wf_header_satisfiable.
+
+(* FilesInfo: EmptyStream vector, skipped EmptyFile property, UTF-16LE names (pairs joined), attributes, END *)
+Theorem C10_7z_files_info_roundtrip :
+  forall fs emptyfile with_attrs rest fuel,
+    wf_files fs emptyfile with_attrs = true ->
+    (List.length (files_body_bytes fs emptyfile with_attrs ++ rest) < fuel)%nat ->
+    parse_files_info fuel (files_body_bytes fs emptyfile with_attrs ++ rest) = POk fs rest.
+Proof. exact files_info_rt. Qed.
+Print Assumptions C10_7z_files_info_roundtrip.
+
+(* SevenZipReader(archive bytes) = the reader state the header description stands for: signature, version, both CRCs
+   (crc32 oracle), end-header location, and the whole plain header *)
+Theorem C10_7z_archive_roundtrip :
+  forall (T : tables) lzma_alone lzma2_raw (crc32 : bytes -> N) h crcs emptyfile with_attrs area,
+    wf_header h crcs emptyfile with_attrs = true ->
+    wf_archive crc32 area (ser_header h crcs emptyfile with_attrs) = true ->
+    exists st, state_of h = Some st /\
+      parse_7z T lzma_alone lzma2_raw crc32 (archive_bytes crc32 area (ser_header h crcs emptyfile with_attrs)) = POk st [].
+Proof. intros. apply parse_7z_rt; assumption. Qed.
+Print Assumptions C10_7z_archive_roundtrip.
+
+(* END TO END: for the BYTES of a standard-layout 7z archive (start header ++ junk ++ folder streams ++ serialised header)
+   the 7z path of read_archive - size check, SevenZipReader parsing those bytes, folder decoding, slicing, member loop -
+   yields exactly the entries of the supported visible data members, each from its own bytes, in archive order *)
+Theorem C10_7z_members_exact_from_bytes :
+  forall (R : Type) (T : tables) lzma_alone lzma2_raw (crc32 : bytes -> N) supported lower
+         (extract : str -> bytes -> str -> list R)
+         (L : layout) (full : bool) (junk : bytes) (attr_dir attr_file : N) (crcs emptyfile : option bytes)
+         (with_attrs : bool) (apath : option str),
+    let H := pack7z full attr_dir attr_file (lenN junk) L in
+    let hb := ser_header H crcs emptyfile with_attrs in
+    let file := archive_bytes crc32 (area7z junk L) hb in
+    std7z_ok T lzma_alone lzma2_raw L attr_file (lenN file) = true ->
+    wf_header H crcs emptyfile with_attrs = true ->
+    wf_archive crc32 (area7z junk L) hb = true ->
+    read_7z_bytes R T lzma_alone lzma2_raw crc32 supported lower extract file apath
+    = {| yields := expected7 R T supported lower extract apath (all_members L); fin := Done |}.
+Proof. intros. apply members_exact_from_bytes; assumption. Qed.
+Print Assumptions C10_7z_members_exact_from_bytes.
+
+(* all three hypotheses hold together for a two-folder archive with digests and attributes *)
+Example C10_7z_from_bytes_satisfiable :
+  let H := pack7z true 16 32 0 L2 in
+  let hb := ser_header H (Some (repeat 0 8)) None true in
+  let file := archive_bytes (fun _ => 7) (area7z [] L2) hb in
+  std7z_ok T0 la0 l20 L2 32 (lenN file) && wf_header H (Some (repeat 0 8)) None true
+  && wf_archive (fun _ => 7) (area7z [] L2) hb = true.
+Proof. vm_compute. reflexivity. Qed.
+Print Assumptions C10_7z_from_bytes_satisfiable.
